@@ -244,6 +244,11 @@ TTally ==
   /\ Bump("tallies", 1)
   /\ UNCHANGED <<pc, cfg, zero, slot, inits, born, finished, prims, pres, posts, led, lastgen, hang, tal>>
 
+\* scripted replay only: the code asked for an interaction the script (the Impl model) did not foresee
+TOffScript ==
+  /\ pc = "idle" /\ Rec.e = "OffScript" /\ Mark({"DRIFT.OffScript"})
+  /\ UNCHANGED <<pc, cfg, zero, slot, inits, born, finished, prims, pres, posts, led, stat, lastgen, hang, tal>>
+
 \* every run ends with an explicit Close: a truncated trace (crash of the harness) is rejected
 TClose ==
   /\ pc = "idle" /\ Rec.e = "Close"
@@ -257,7 +262,7 @@ THang ==
 Next ==
   /\ l <= N /\ l' = l + 1
   /\ \/ TConfig \/ TRanks \/ TReseed \/ TInsert \/ TGen \/ TStart \/ TPre \/ TPost \/ TDeliver
-     \/ TEnd \/ TResult \/ TError \/ TReset \/ TEventsDone \/ THang \/ TTally \/ TClose
+     \/ TEnd \/ TResult \/ TError \/ TReset \/ TEventsDone \/ THang \/ TTally \/ TClose \/ TOffScript
 Spec == Init /\ [][Next]_vars
 
 Accepted ==
